@@ -364,9 +364,9 @@ def run(chk, rng, replay=None):
     chk.coverage["cauchy_geometry_model_correspondence"] = cstat
     sstat, smism = spider_correspondence(rng, 200 if chk.tier == "quick" else 4000) if replay is None else ({}, [])
     chk.coverage["spider_geometry_model_correspondence"] = sstat
-    fstat, fmism = cauchy_full_correspondence(rng, 200 if chk.tier == "quick" else 4000) if replay is None else ({}, [])
+    fstat, fmism = cauchy_full_correspondence(rng, 200 if chk.tier == "quick" else 2000) if replay is None else ({}, [])
     chk.coverage["whole_cauchy_geometry_correspondence_rescaling_loop_included"] = fstat
-    nstat, nmism = (ntcg_correspondence(rng, 120, nmax=3) if chk.tier == "quick" else ntcg_correspondence(rng, 2500, nmax=4)) if replay is None else ({}, [])
+    nstat, nmism = (ntcg_correspondence(rng, 120, nmax=3) if chk.tier == "quick" else ntcg_correspondence(rng, 600, nmax=4)) if replay is None else ({}, [])
     chk.coverage["normal_solver_loop_model_correspondence"] = nstat
     cmism = cmism + smism + fmism + nmism
     chk.assumptions += ["kernel theorems are exact-arithmetic; the loops of the solvers are covered by the sampled calls only",
